@@ -23,8 +23,8 @@ type c15Case struct {
 
 var c15EditKinds = []string{"EP", "EC", "EL"}
 var c15Policies = []string{"adv", "eq", "back", "zero"}
-var c15Other = []string{"TP", "TC", "TL", "IP", "IC", "FP", "BP", "FC", "FL"} // F*: front-matter-only edit, BP: body-only edit (mtime advances)
-var c15Renders = []string{"R1", "R2", "R3"}
+var c15Other = []string{"TP", "TC", "TL", "TS", "TB", "IP", "IC", "FP", "BP", "FC", "FL"} // F*: front-matter-only edit, BP: body-only edit (mtime advances)
+var c15Renders = []string{"R1", "R2", "R3", "R4"}
 
 func c15Alphabet() []string {
 	var a []string
@@ -39,8 +39,8 @@ func c15Alphabet() []string {
 }
 
 var (
-	c15Once                         sync.Once
-	c15Hits, c15Misses, c15Stores   atomic.Int64
+	c15Once                       sync.Once
+	c15Hits, c15Misses, c15Stores atomic.Int64
 )
 
 func c15Install() {
@@ -73,7 +73,7 @@ func init() {
 
 func (p *c15) ID() string { return "C15" }
 func (p *c15) Rule() string {
-	return "histories over a 24-symbol alphabet {edit page/component/layout x mtime policy (advance, equal, backwards, zero), front-matter-only and body-only edits, delete/recreate page/component/layout, make page/component invalid (bad YAML), render via Load().Render / RenderFile / Vue.Render} on a page with front-matter + include + layout; exhaustive for length <=3 (quick) / <=4 (thorough) each followed by the three renders, plus seeded histories of length 6-20; after every render step the long-lived engine's (bytes, error-ness) is compared with a fresh engine; cache hit/miss/store hook counts prove which comparisons were answered from the cache; non-trivial = history containing at least one edit followed by a render; distinct by the op list"
+	return "histories over a 27-symbol alphabet {edit page/component/layout x mtime policy (advance, equal, backwards, zero), front-matter-only and body-only edits, delete/recreate page/component/layout, create/delete a layout next to the page that shadows layouts/lay.vuego, delete/recreate the default layouts/base.vuego, make page/component invalid (bad YAML), render the page via Load().Render / RenderFile / Vue.Render, render a second page that names no layout} on a page with front-matter + include + layout; exhaustive for length <=3 (quick) / <=4 (thorough) each followed by the four renders, plus seeded histories of length 6-20; after every render step the long-lived engine's (bytes, error-ness) is compared with a fresh engine; cache hit/miss/store hook counts prove which comparisons were answered from the cache; non-trivial = history containing at least one edit followed by a render; distinct by the op list"
 }
 
 func (p *c15) exh(ctx core.Ctx) int {
@@ -103,7 +103,7 @@ func (p *c15) Gen(ctx core.Ctx, i int) any {
 			ops[k] = p.alpha[i%n]
 			i /= n
 		}
-		return c15Case{Ops: append(ops, "R1", "R2", "R3")}
+		return c15Case{Ops: append(ops, "R1", "R2", "R3", "R4")}
 	}
 	r := core.NewRNG(ctx.Seed, 0xC15, uint64(i))
 	var ops []string
@@ -114,7 +114,7 @@ func (p *c15) Gen(ctx core.Ctx, i int) any {
 			ops = append(ops, core.Pick(r, p.alpha))
 		}
 	}
-	return c15Case{Ops: append(ops, "R3", "R1", "R2")}
+	return c15Case{Ops: append(ops, "R3", "R1", "R4", "R2")}
 }
 
 func (p *c15) Decode(raw json.RawMessage) (any, error) { return core.JSONDecode[c15Case](raw) }
@@ -162,6 +162,12 @@ const (
 	c15Page = "p.vuego"
 	c15Comp = "c.vuego"
 	c15Lay  = "layouts/lay.vuego"
+	// a layout next to the page: while it exists it shadows layouts/lay.vuego for
+	// the page's `layout: lay` (relative before layouts/); absent at the start
+	c15Shadow = "lay.vuego"
+	// the default layout and a second page that names no layout
+	c15Base  = "layouts/base.vuego"
+	c15Page2 = "q.vuego"
 )
 
 func c15Content(file string, fv, v int, valid bool) string {
@@ -176,6 +182,12 @@ func c15Content(file string, fv, v int, valid bool) string {
 			return fmt.Sprintf("---\n: : [bad %d\n---\n<p>x</p>", v)
 		}
 		return fmt.Sprintf("---\ncfm: CF%d\n---\n<section data-c=\"C%d\">{{ cfm }}</section>", fv, v)
+	case c15Shadow:
+		return fmt.Sprintf("---\nlfm: LF%d\n---\n<html><body data-l=\"L%d\" class=\"shadow\">{{ lfm }} {{ fm }}<div v-html=\"content\"></div></body></html>", fv, v)
+	case c15Base:
+		return fmt.Sprintf("<html><body data-l=\"L%d\" class=\"base\"><div v-html=\"content\"></div></body></html>", v)
+	case c15Page2:
+		return fmt.Sprintf("<main data-p=\"P%d\">q <template include=\"c.vuego\"></template></main>", v)
 	default:
 		return fmt.Sprintf("---\nlfm: LF%d\n---\n<html><body data-l=\"L%d\">{{ lfm }} {{ fm }}<div v-html=\"content\"></div></body></html>", fv, v)
 	}
@@ -183,7 +195,7 @@ func c15Content(file string, fv, v int, valid bool) string {
 
 func newC15World() *c15World {
 	w := &c15World{fs: fstest.MapFS{}, mtime: map[string]time.Time{}, hist: map[string][]c15Version{}}
-	for _, f := range []string{c15Page, c15Comp, c15Lay} {
+	for _, f := range []string{c15Page, c15Comp, c15Lay, c15Page2, c15Base} {
 		w.write(f, true, "adv")
 	}
 	return w
@@ -267,6 +279,8 @@ func (e c15Engines) render(kind string) (string, error) {
 		err = e.base.New().RenderFile(bg, &b, c15Page)
 	case "R3":
 		err = e.vue.Render(&b, c15Page, map[string]any{"x": 1})
+	case "R4":
+		err = e.base.Load(c15Page2).Render(bg, &b)
 	}
 	return b.String(), err
 }
@@ -289,8 +303,8 @@ func (p *c15) Exec(ctx core.Ctx, cc any) core.Obs {
 			w.write(c15Comp, true, policy)
 		case "EL":
 			w.write(c15Lay, true, policy)
-		case "TP", "TC", "TL":
-			f := map[string]string{"TP": c15Page, "TC": c15Comp, "TL": c15Lay}[kind]
+		case "TP", "TC", "TL", "TS", "TB":
+			f := map[string]string{"TP": c15Page, "TC": c15Comp, "TL": c15Lay, "TS": c15Shadow, "TB": c15Base}[kind]
 			if _, ok := w.fs[f]; ok {
 				w.remove(f)
 			} else {
@@ -308,7 +322,7 @@ func (p *c15) Exec(ctx core.Ctx, cc any) core.Obs {
 			w.write(c15Page, false, "adv")
 		case "IC":
 			w.write(c15Comp, false, "adv")
-		case "R1", "R2", "R3":
+		case "R1", "R2", "R3", "R4":
 			hitsBefore := c15Hits.Load()
 			out, err := long.render(kind)
 			fromCache := c15Hits.Load() > hitsBefore
@@ -360,12 +374,15 @@ func (p *c15) Exec(ctx core.Ctx, cc any) core.Obs {
 // error-ness differs some combination of acceptable versions must reproduce it
 // on a fresh engine.
 func (p *c15) matchesAlternative(w *c15World, kind, out string, err error, o *core.Obs) bool {
-	files := []string{c15Page, c15Comp, c15Lay}
+	files := []string{c15Page, c15Comp, c15Lay, c15Shadow, c15Base, c15Page2}
 	total := 1
 	okVersions := map[int]bool{}
 	for _, f := range files {
 		acc := w.accept(f)
 		if len(acc) == 0 {
+			if f == c15Shadow {
+				continue // never written so far
+			}
 			return false
 		}
 		total *= len(acc)
@@ -390,6 +407,9 @@ func (p *c15) matchesAlternative(w *c15World, kind, out string, err error, o *co
 		k := combo
 		for _, f := range files {
 			vs := w.accept(f)
+			if len(vs) == 0 {
+				continue
+			}
 			v := vs[k%len(vs)]
 			k /= len(vs)
 			if v.exists {
